@@ -181,11 +181,25 @@ type vtC11Input struct {
 	already map[int64]bool
 	flips   []int64
 	fails   []int64
+	extra   []vtC11Ctr
+}
+
+// a further container of a pod: kind 0 regular, 1 init, 2 sidecar (init container with restartPolicy Always)
+type vtC11Ctr struct {
+	pod, kind        int64
+	req0, req1, req2 int64
 }
 
 func vtC11Decode(in []int64) vtC11Input {
 	pos := 0
-	next := func() int64 { v := in[pos]; pos++; return v }
+	next := func() int64 {
+		if pos >= len(in) { // the trailer (further containers) is optional
+			return 0
+		}
+		v := in[pos]
+		pos++
+		return v
+	}
 	nb := func() bool { return next() != 0 }
 	var x vtC11Input
 	c := &x.cfg
@@ -211,11 +225,14 @@ func vtC11Decode(in []int64) vtC11Input {
 	for a := int(next()); a > 0; a-- {
 		x.fails = append(x.fails, next())
 	}
+	for a := int(next()); a > 0; a-- {
+		x.extra = append(x.extra, vtC11Ctr{pod: next(), kind: next(), req0: next(), req1: next(), req2: next()})
+	}
 	return x
 }
 
 // vtC11BuildPod renders a pod description as labels / annotations / spec, the way users write them.
-func vtC11BuildPod(p vtC11Pod, featNames []string, plain corev1.ResourceName, batch, mid corev1.ResourceName, plainQty func(int64) resource.Quantity) *corev1.Pod {
+func vtC11BuildPod(p vtC11Pod, extra []vtC11Ctr, featNames []string, plain corev1.ResourceName, batch, mid corev1.ResourceName, plainQty func(int64) resource.Quantity) *corev1.Pod {
 	name := fmt.Sprintf("p%03d", p.id)
 	pod := &corev1.Pod{ObjectMeta: metav1.ObjectMeta{Namespace: "ns", Name: name, UID: types.UID(name),
 		Labels: map[string]string{}, Annotations: map[string]string{}}}
@@ -283,17 +300,36 @@ func vtC11BuildPod(p vtC11Pod, featNames []string, plain corev1.ResourceName, ba
 	default:
 		pod.Status.Phase = corev1.PodFailed
 	}
-	reqs := corev1.ResourceList{}
-	if p.req0 != 0 {
-		reqs[plain] = plainQty(p.req0)
+	mk := func(name string, r0, r1, r2 int64) corev1.Container {
+		reqs := corev1.ResourceList{}
+		if r0 != 0 {
+			reqs[plain] = plainQty(r0)
+		}
+		if r1 != 0 {
+			reqs[batch] = *resource.NewQuantity(r1, resource.DecimalSI)
+		}
+		if r2 != 0 {
+			reqs[mid] = *resource.NewQuantity(r2, resource.DecimalSI)
+		}
+		return corev1.Container{Name: name, Resources: corev1.ResourceRequirements{Requests: reqs}}
 	}
-	if p.req1 != 0 {
-		reqs[batch] = *resource.NewQuantity(p.req1, resource.DecimalSI)
+	pod.Spec.Containers = []corev1.Container{mk("c", p.req0, p.req1, p.req2)}
+	for i, k := range extra {
+		if k.pod != p.id {
+			continue
+		}
+		c := mk(fmt.Sprintf("x%d", i), k.req0, k.req1, k.req2)
+		switch k.kind {
+		case 0:
+			pod.Spec.Containers = append(pod.Spec.Containers, c)
+		case 2:
+			always := corev1.ContainerRestartPolicyAlways
+			c.RestartPolicy = &always
+			pod.Spec.InitContainers = append(pod.Spec.InitContainers, c)
+		default:
+			pod.Spec.InitContainers = append(pod.Spec.InitContainers, c)
+		}
 	}
-	if p.req2 != 0 {
-		reqs[mid] = *resource.NewQuantity(p.req2, resource.DecimalSI)
-	}
-	pod.Spec.Containers = []corev1.Container{{Name: "c", Resources: corev1.ResourceRequirements{Requests: reqs}}}
 	return pod
 }
 
@@ -312,7 +348,7 @@ func vtC11MemExec(in []int64) []int64 {
 	var metas []*statesinformer.PodMeta
 	podMetric := map[string]float64{}
 	for _, p := range x.pods {
-		pod := vtC11BuildPod(p, vtC11MemFeatures, corev1.ResourceMemory, apiext.BatchMemory, apiext.MidMemory, memQty)
+		pod := vtC11BuildPod(p, x.extra, vtC11MemFeatures, corev1.ResourceMemory, apiext.BatchMemory, apiext.MidMemory, memQty)
 		metas = append(metas, &statesinformer.PodMeta{Pod: pod})
 		if p.hasMetric {
 			podMetric[string(pod.UID)] = float64(p.used)
@@ -480,8 +516,11 @@ func vtC11MemGen(rnd *rand.Rand, idx int) (string, []int64) {
 	evthr := []int64{5999, 7999, 9999, 3999, 6999}[rnd.Intn(5)]
 	athr := int64(rnd.Intn(100))
 	alower := []int64{0, 25, 50, 75}[rnd.Intn(4)]
+	if rnd.Intn(2) == 0 {
+		alower = int64(rnd.Intn(100)) // float64(lower)/100 is not a binary fraction
+	}
 	if rnd.Intn(3) != 0 && alower >= athr {
-		alower = 0
+		alower = int64(rnd.Intn(int(athr + 1)))
 	}
 	aprio := []int64{5999, 7999, 7999, 3999, 8500}[rnd.Intn(5)]
 	if style == "boundary" {
@@ -489,13 +528,15 @@ func vtC11MemGen(rnd *rand.Rand, idx int) (string, []int64) {
 		aprio = []int64{7999, 7999, -1, -(int64(1) << 31)}[rnd.Intn(4)]
 	}
 	alloc := func() int64 {
-		switch rnd.Intn(8) {
+		switch rnd.Intn(10) {
 		case 0:
 			return -1
 		case 1:
 			return 0
-		default:
+		case 2, 3, 4:
 			return int64(1) << uint(22+rnd.Intn(8))
+		default:
+			return int64(1)<<20 + rnd.Int63n(int64(1)<<30)
 		}
 	}
 	fp := 75
@@ -510,8 +551,34 @@ func vtC11MemGen(rnd *rand.Rand, idx int) (string, []int64) {
 	if style == "degenerate" && rnd.Intn(6) == 0 {
 		in[1] = 0
 	}
-	in = append(in, vtC11GenPods(rnd, unit, rnd.Intn(20) == 0, style == "boundary")...)
+	pods := vtC11GenPods(rnd, unit, rnd.Intn(20) == 0, style == "boundary")
+	in = append(in, pods...)
 	in = append(in, vtC11GenOracle(rnd)...)
+	// further containers of some pods (regular, init, sidecar); amounts are multiples of unit (init
+	// containers: plus a per-pod residue) so that the pods' summed figures stay pairwise distinct
+	extras := []int64{0}
+	for p := 0; p < int(pods[0]); p++ {
+		id := pods[1+15*p]
+		if rnd.Intn(100) >= 25 {
+			continue
+		}
+		for k := 1 + rnd.Intn(3); k > 0; k-- {
+			kind := []int64{0, 1, 2, 2, 2}[rnd.Intn(5)]
+			amount := func() int64 {
+				if rnd.Intn(3) == 0 {
+					return 0
+				}
+				return int64(1+rnd.Intn(40)) * unit
+			}
+			r0 := amount()
+			if kind == 1 && r0 != 0 {
+				r0 += id*8 + 4
+			}
+			extras = append(extras, id, kind, r0, amount(), amount())
+			extras[0]++
+		}
+	}
+	in = append(in, extras...)
 	return style, in
 }
 
